@@ -316,7 +316,7 @@ class Generated:
         return '\n'.join(self.lines) + '\n'
 
 
-RW_RE = re.compile(r'^@rewrite\s+(\??\d+)\s+/(.*)/\s+=>\s?(.*)$')
+RW_RE = re.compile(r'^@rewrite\s+(\??\d+|\d+\.\.\d+)\s+/(.*)/\s+=>\s?(.*)$')
 LOOP_RE = re.compile(r'^@loop\s+(\d+)\s+/(.*)/\s*$')
 
 
@@ -555,7 +555,12 @@ def generate(template_path, repo_root, unit_name, canary=False):
         for n, rx, repl in b.rewrites:
             new, cnt = re.subn(rx, repl, item, flags=re.M | re.S)
             # `?n` = at most n matches (an annotation-only rewrite whose target may legitimately be absent)
-            okcnt = (cnt <= int(n[1:])) if n.startswith('?') else (cnt == int(n))
+            # `a..b` = between a and b matches (a rewrite that applies to every occurrence, whose number a code change may alter)
+            if '..' in n:
+                lo_, hi_ = n.split('..')
+                okcnt = int(lo_) <= cnt <= int(hi_)
+            else:
+                okcnt = (cnt <= int(n[1:])) if n.startswith('?') else (cnt == int(n))
             if not okcnt:
                 raise AnchorLost('%s::%s rewrite /%s/ matched %d times, declared %s' % (b.file, b.name, rx, cnt, n))
             g.rewrites.append({'item': b.name, 'file': b.file, 'regex': rx, 'repl': repl, 'count': cnt})
